@@ -287,7 +287,7 @@ def refactor_corpus(pid):
     try:
         subprocess.check_call(['rsync', '-a', '--exclude', '/target', '--exclude', '/.git', '--exclude', 'test_snapshots', repo.rstrip('/') + '/', sc + '/repo/'])
         os.makedirs(sc + '/ev')
-        for patch in sorted(glob.glob(os.path.join(VERIF, 'selftest', 'refactors', '*.diff'))):
+        for patch in sorted(glob.glob(os.path.join(VERIF, 'selftest', 'refactors', '*.diff')) + glob.glob(os.path.join(VERIF, 'selftest', 'features', '*.diff'))):
             name = os.path.basename(patch)[:-5]
             touched = [l.split()[1] for l in open(patch) if l.startswith('+++ ')]
             touched = [t.split('/', 1)[1] if '/' in t else t for t in touched]
@@ -328,7 +328,7 @@ def run(P, rep, mod):
         for x in sm['problems']:
             print('SELFTEST-MISS rule=%s mutant=%s %s' % (rep.pid, x['id'], x['status']))
     rc = refactor_corpus(rep.pid)
-    rep.selftest.append(dict(kind='independent behaviour-preserving refactorings (must stay silent)', **rc))
+    rep.selftest.append(dict(kind='independent behaviour-preserving refactorings and property-preserving feature additions (must stay silent)', **rc))
     if rc.get('total'):
         print('SELFTEST refactorings: %d applied, %d silent' % (rc['total'], rc['silent']))
         for x in rc['problems']:
